@@ -1,6 +1,6 @@
 import FV.Combinators
-/-! Deep read of a mapped value through the accessors, rendered canonically (prototype of the content layer).
-Organised like `Dict`: one walker combinator per type constructor, assembled by recursion over `Ty`. -/
+/-! Rendering of the deep read (`Dict.walk`, defined next to each validator in `Combinators.lean`) in the canonical text form
+the harness prints for the implementation. -/
 namespace FV
 
 def hexDigit (n : Nat) : Char := if n < 10 then Char.ofNat (48 + n) else Char.ofNat (87 + n)
@@ -13,98 +13,23 @@ def joinSp : List String → String
 
 abbrev Walker := Slice → Res String
 
-/-- walker of a field together with its dictionary (for the layout) -/
-structure WD where
-  d : Dict
-  w : Walker
-
-def walkFields : List WD → Nat → Slice → Res (List String)
-  | [], _, _ => .ok []
-  | t :: ts, pos, s =>
-    let p := ceilMul pos t.d.align
-    (s.dropU p).bind fun x => (t.w x).bind fun v =>
-      (walkFields ts (p + t.d.ssize) s).bind fun vs => .ok (v :: vs)
-
-def walkVariant : List (List WD) → Nat → Slice → Res (List String)
-  | [], _, _ => .fault .panic
-  | v :: _, 0, s => walkFields v 0 s
-  | _ :: vs, n+1, s => walkVariant vs n s
-
-def walkArr (w : Walker) (sz : Nat) : Nat → Nat → Slice → Res (List String)
-  | 0, _, _ => .ok []
-  | k+1, i, s =>
-    (s.dropU (i * sz)).bind fun a => (a.takeU sz).bind fun e => (w e).bind fun v =>
-      (walkArr w sz k (i + 1) s).bind fun vs => .ok (v :: vs)
-
-def walkFlex (w : Walker) (l : LenTy) (os : Nat) : Nat → Slice → Res (List String)
-  | 0, _ => .fault .fuel
-  | fuel+1, data =>
-    (l.readU data).bind fun next =>
-      if next = 0 then .ok []
-      else if next = l.max then
-        (data.splitAt os).bind fun (_, payload) => (w payload).bind fun v => .ok [v]
-      else
-        (data.splitAt next).bind fun (item, rest) =>
-          (item.splitAt os).bind fun (_, payload) => (w payload).bind fun v =>
-            (walkFlex w l os fuel rest).bind fun vs => .ok (v :: vs)
-
-def primW (sz : Nat) : Walker := fun s => (s.takeU sz).bind fun x => .ok ("r:" ++ hexOf x.bytes)
-def boolW : Walker := fun s => match s.bytes with
-  | [] => .fault .oob
-  | b :: _ => .ok (if b.toNat = 0 then "b:0" else "b:1")
-def arrW (e : WD) (n : Nat) : Walker := fun s =>
-  (walkArr e.w e.d.ssize n 0 s).bind fun xs => .ok ("[" ++ joinSp xs ++ "]")
-def sstructW (fs : List WD) : Walker := fun s => (walkFields fs 0 s).bind fun xs => .ok ("(" ++ joinSp xs ++ ")")
-def cenumW (tag : LenTy) : Walker := fun s => (tag.readU s).bind fun t => .ok s!"<{t}>"
-def enumW (tag : LenTy) (vs : List (List WD)) (floorData : Bool) : Walker := fun s =>
-  let al := max tag.align (alignLL (vs.map (·.map (·.d))))
-  let dOff := ceilMul tag.size al
-  (tag.readU s).bind fun t =>
-    (s.dropU dOff).bind fun data =>
-      let data := if floorData then data.take (floorMul data.len al) else data
-      (walkVariant vs t data).bind fun xs => .ok (if xs.isEmpty then s!"<{t}>" else s!"<{t} {joinSp xs}>")
-def vecW (e : WD) (l : LenTy) : Walker := fun s =>
-  let dOff := max l.size e.d.align
-  (l.readU s).bind fun len =>
-    (vecSlots e.d l s.len).bind fun slots =>
-      if e.d.ssize = 0 then .ok s!"V{min slots l.max}[*{len}]" else
-      (walkArr e.w e.d.ssize len 0 (s.drop dOff)).bind fun xs => .ok (s!"V{min slots l.max}[" ++ joinSp xs ++ "]")
-def strW (l : LenTy) : Walker := fun s =>
-  (l.readU s).bind fun len =>
-    if s.len < l.size then .fault .panic else
-    let cap := min (floorMul (s.len - l.size) l.align) l.max
-    .ok (s!"S{cap}:" ++ hexOf ((s.bytes.drop l.size).take len))
-def flexW (e : WD) (l : LenTy) : Walker := fun s =>
-  let al := max l.align e.d.align
-  (walkFlex e.w l (max l.size e.d.align) (s.len + 1) (s.take (floorMul s.len al))).bind fun xs =>
-    .ok ("F[" ++ joinSp xs ++ "]")
-def ustructW (fs : List WD) (last : WD) : Walker := fun s =>
-  let all := fs.map (·.d) ++ [last.d]
-  let al := alignL all
-  let s0 := s.take (floorMul s.len al)
-  let lfo := ceilMul (foldSize (fs.map (·.d)) 0) last.d.align
-  (walkFields fs 0 s0).bind fun xs =>
-    (s0.dropU lfo).bind fun rest =>
-      (last.w rest).bind fun x => .ok ("(" ++ joinSp (xs ++ [x]) ++ ")")
-
 mutual
-def Ty.walk : Ty → Walker
-  | .prim sz _ => primW sz
-  | .bool => boolW
-  | .arr t n => arrW ⟨t.dict, t.walk⟩ n
-  | .sstruct fs => sstructW (wdL fs)
-  | .cenum tag _ => cenumW tag
-  | .senum tag vs => enumW tag (wdLL vs) false
-  | .vec t l => vecW ⟨t.dict, t.walk⟩ l
-  | .str l => strW l
-  | .flex t l => flexW ⟨t.dict, t.walk⟩ l
-  | .ustruct fs last => ustructW (wdL fs) ⟨last.dict, last.walk⟩
-  | .uenum tag vs => enumW tag (wdLL vs) true
-def wdL : List Ty → List WD
+/-- canonical text of a value; `caps = false` leaves the capacities out (content only) -/
+def Val.render (caps : Bool) : Val → String
+  | .raw bs => "r:" ++ hexOf bs
+  | .bool b => if b then "b:1" else "b:0"
+  | .arr xs => "[" ++ joinSp (renderL caps xs) ++ "]"
+  | .tuple xs => "(" ++ joinSp (renderL caps xs) ++ ")"
+  | .tag i xs => if xs.isEmpty then s!"<{i}>" else s!"<{i} {joinSp (renderL caps xs)}>"
+  | .vec cap xs => (if caps then s!"V{cap}[" else "V[") ++ joinSp (renderL caps xs) ++ "]"
+  | .vecZ cap len => if caps then s!"V{cap}[*{len}]" else s!"V[*{len}]"
+  | .str cap bs => (if caps then s!"S{cap}:" else "S:") ++ hexOf bs
+  | .flex xs => "F[" ++ joinSp (renderL caps xs) ++ "]"
+def renderL (caps : Bool) : List Val → List String
   | [] => []
-  | t :: ts => ⟨t.dict, t.walk⟩ :: wdL ts
-def wdLL : List (List Ty) → List (List WD)
-  | [] => []
-  | v :: vs => wdL v :: wdLL vs
+  | x :: xs => x.render caps :: renderL caps xs
 end
+
+/-- the deep read as text, with capacities -/
+def Ty.walk (t : Ty) : Walker := fun s => (t.dict.walk s).map (Val.render true)
 end FV
